@@ -86,7 +86,10 @@ def inject(text, cls, rng):
             L.insert(end, "    %s = 1;" % rng.choice(["Foo", "littleEndian", "StringPrefix", "PadChar"]))
         else:
             cand = [("LittleEndian", "u8"), ("StringPrefixLenType", "i8"), ("ArrayPrefixLenType", "string"), ("FixedStringPadFromLeft", "1"),
-                    ("StringPrefixLenType", "uint16")]
+                    ("StringPrefixLenType", "uint16"),
+                    # near misses of documented values: another case, quoted, padded
+                    ("StringPrefixLenType", '"U16"'), ("ArrayPrefixLenType", '"U8"'), ("LittleEndian", '"TRUE"'), ("FixedStringPadFromLeft", '"False"'),
+                    ("LittleEndian", '"true "'), ("FixedStringPadChar", '"0"'), ("ArrayPrefixLenType", '"u128"')]   # (a quoted documented value, "u16", is legal)
             have = {l.strip().split(" ")[0] for l in L[1:end]}
             cand = [c for c in cand if c[0] not in have]
             if not cand:
@@ -131,6 +134,13 @@ def inject(text, cls, rng):
         L[a] = "root " + L[a]
         return "\n".join(L) + "\n", a + 1
     if cls == "length_outside_root":
+        # inside an inline object (of any packet, the root included) …
+        inl = [i for i, l in enumerate(L) if re.match(r"    (repeat )?\w+ \{$", l)]
+        if inl and rng.random() < 0.5:
+            i = rng.choice(inl)
+            L[i + 1:i + 1] = ["        u16 ZzLen @lengthOf(ZzBody),", "        u8 ZzBody,"]
+            return "\n".join(L) + "\n", i + 2
+        # … or in a packet that is not the root
         non = [p for p in pk if not p[3]]
         if not non:
             return None
